@@ -689,6 +689,8 @@ def run(chk, repo, tier):
     check_implicit_raisers(chk, repo)
     check_nullable_deref(chk, repo)
     check_reader_raises(chk, repo)
+    from .. import schemerules as _R
+    _R.message_concat_types(chk, repo, 'R09.4', [MQR, RQR])
     check_shapes(chk, repo, enhanced, 'R09.7')
     # R16.1-like precondition of the shape interpretation: tokens compare
     # with strings through __eq__
